@@ -572,6 +572,12 @@ class ContainerReplayer:
                             self.ctx.extra["rejections_accepted_where_no_formula_is_prescribed"] = (
                                 self.ctx.extra.get("rejections_accepted_where_no_formula_is_prescribed", 0) + 1)
                         break
+                    if n > 0:  # does the failure need the history?
+                        try:
+                            Workspace(self.yaw, cfg.funcs, cfg.dz, cnt, wt, self.tmpdir).execute(op)
+                        except Exception as exc2:
+                            if type(exc2) is type(exc):
+                                hcls = "any_call"
                     f = [(f"C03|{ENTRY[kind]}|{cls}|{hcls}|raises_{type(exc).__name__}", dict(detail, error=repr(exc)))]
                     all_findings += f
                     if report:
@@ -800,23 +806,32 @@ class EndToEnd:
             except InconsistentPatchesError:
                 # the random scenario is not a valid input (patch centres of the sparse catalogs too far apart)
                 return None
+            entry_of = dict(cross="CorrFunc.sample", ref="CorrFunc.sample", nz="RedshiftData.from_corrfuncs", hist="HistData.from_catalog")
+            makers = dict(
+                cross=lambda o: o["cross"].sample(),
+                ref=lambda o: o["ref"].sample(),
+                nz=lambda o: yaw.RedshiftData.from_corrfuncs(o["cross"], ref_corr=o.get("ref")),
+                hist=lambda o: o["hist"],
+            )
+            if "ref" not in full:
+                del makers["ref"]
             products = {}
-            products["cross"] = full["cross"].sample()
-            if "ref" in full:
-                products["ref"] = full["ref"].sample()
-            products["nz"] = yaw.RedshiftData.from_corrfuncs(full["cross"], ref_corr=full.get("ref"))
-            products["hist"] = full["hist"]
+            for name, make in makers.items():
+                try:
+                    products[name] = make(full)
+                except Exception as exc:  # a public call on a valid measurement must not raise
+                    self.rep.violation(f"C03|{entry_of[name]}|measured_pair_counts|end_to_end|raises_{type(exc).__name__}", dict(detail, error=repr(exc)))
             red_objs = []
             recomputed = {name: [] for name in products}
             for k in range(NP):
                 red = self.measure(self.drop_patch(frames, k), config, variant)
                 red_objs.append(red)
-                recomputed["cross"].append(np.asarray(red["cross"].sample().data))
-                if "ref" in full:
-                    recomputed["ref"].append(np.asarray(red["ref"].sample().data))
-                recomputed["nz"].append(np.asarray(yaw.RedshiftData.from_corrfuncs(red["cross"], ref_corr=red.get("ref")).data))
-                recomputed["hist"].append(np.asarray(red["hist"].data))
-        entry_of = dict(cross="CorrFunc.sample", ref="CorrFunc.sample", nz="RedshiftData.from_corrfuncs", hist="HistData.from_catalog")
+                for name in list(products):
+                    try:
+                        recomputed[name].append(np.asarray(makers[name](red).data))
+                    except Exception as exc:
+                        self.rep.violation(f"C03|{entry_of[name]}|measured_pair_counts|end_to_end|raises_{type(exc).__name__}", dict(detail, error=repr(exc)))
+                        del products[name]
         cls_of = dict(cross="cross:" + "+".join(full["cross"].to_dict()), ref="auto:" + "+".join(full["ref"].to_dict()) if "ref" in full else "",
                       nz="cross+ref" if "ref" in full else "cross", hist="sequential")
         NB = len(edges) - 1
@@ -836,7 +851,7 @@ class EndToEnd:
             for key, d2 in check_covariance(prod, entry_of[name], cls_of[name]):
                 ctx.violation(key, dict(d2, **detail))
         # joint covariance of several products (cov_from_samples with a sequence of sample sets)
-        if "ref" in products:
+        if "ref" in products and "cross" in products:
             from yaw.correlation.corrdata import cov_from_samples
 
             sets = [np.asarray(products["cross"].samples), np.asarray(products["ref"].samples)]
